@@ -410,7 +410,23 @@ def final_outcomes(E, facts, body, args, depth=0):
                     res.append({"err": o2["err"], "definite": o["definite"] and o2["definite"], "panic": o2["panic"],
                                 "paths": [p] + o2["paths"]})
                 continue
-        res.append({"err": err, "definite": o["definite"], "panic": None, "paths": [p]})
+        definite = o["definite"]
+        if err is None and p.ret is not None:
+            # the returned value is computed (combinators, helper results): evaluate it to see which variant it is
+            try:
+                v = deref(E.ev(p.ret, o["env"], body))
+                if isinstance(v, Adt) and v.variant in ("Ok", "Some"):
+                    err = False
+                elif isinstance(v, Adt) and v.variant in ("Err", "None"):
+                    err = True
+                else:
+                    definite = False
+            except Panic as pe:
+                res.append({"err": None, "definite": definite, "panic": pe.what, "paths": [p]})
+                continue
+            except Unknown:
+                definite = False
+        res.append({"err": err, "definite": definite, "panic": None, "paths": [p]})
     return res
 
 
